@@ -1,5 +1,6 @@
 """Solver-family scenarios: generation, execution on gearpy, emission as Coq [scase] literals (see coq/SolverCorr.v)."""
 import math
+import zlib
 import random
 import signal
 
@@ -33,7 +34,11 @@ def Q(kind, v, u):
 
 
 def mkq(q):
-    return getattr(U, q[0])(q[1], q[2])
+    v = q[1]
+    # one integral value in three is handed over as a Python int (deterministically, so that a replay builds the same objects)
+    if isinstance(v, float) and v != 0 and v.is_integer() and abs(v) < 2 ** 31 and zlib.crc32(repr(q).encode()) % 3 == 0:
+        v = int(v)
+    return getattr(U, q[0])(v, q[2])
 
 
 def in_unit(rng, kind, si_value, unit=None):
@@ -311,10 +316,19 @@ def build(sc):
         else:
             add_worm_gear_mating(master=prev, slave=o, friction_coefficient=e['f'])
         els.append(o)
-    els[-1].external_torque = make_load(sc['load'])
+    # the order of the three assignments and of the assembly is the user's: it varies with the scenario (deterministically)
+    order = zlib.crc32(repr((sc['pos0'], sc['spd0'], len(sc['elems']))).encode()) % 4
+    if order in (0, 1):
+        els[-1].external_torque = make_load(sc['load'])
+    if order in (1, 2):
+        els[-1].angular_speed = mkq(sc['spd0'])
+        els[-1].angular_position = mkq(sc['pos0'])
     pt = Powertrain(motor=motor)
-    els[-1].angular_position = mkq(sc['pos0'])
-    els[-1].angular_speed = mkq(sc['spd0'])
+    if order in (2, 3):
+        els[-1].external_torque = make_load(sc['load'])
+    if order in (0, 3):
+        els[-1].angular_position = mkq(sc['pos0'])
+        els[-1].angular_speed = mkq(sc['spd0'])
     return pt, els
 
 
